@@ -80,6 +80,10 @@ def programs(draw, tier):
             "np_seeds": [draw(st.integers(0, 2 ** 31 - 1)) for _ in range(2)], "consume": draw(st.integers(0, 5))}
 
 
+class Diverged(Exception):
+    """parameters became non-finite during a generated fit (zero-probability rows): excluded, not judged"""
+
+
 def run_program(ops, seed, tmp):
     import qucumber
     from qucumber.observables import System
@@ -107,6 +111,8 @@ def run_program(ops, seed, tmp):
             data, bases = train_data(state.num_visible, op["N"])
             kw = {"input_bases": bases} if len(state.networks) > 1 else {}
             state.fit(data, epochs=op["epochs"], pos_batch_size=op["pbs"], neg_batch_size=op["nbs"], k=op["k"], lr=0.05, **kw)
+            if not bool(torch.isfinite(params_flat(state)).all()):
+                raise Diverged()
             outs.append(params_flat(state))
         elif k == "save_autoload":
             fp = os.path.join(tmp, f"m{i}.pt")
@@ -133,7 +139,10 @@ def check_repro(c):
     import qucumber
     with tempfile.TemporaryDirectory(prefix="vf_c14_") as tmp:
         np.random.seed(c["np_seeds"][0]); random.seed(c["np_seeds"][0])
-        a = run_program(c["ops"], c["seed"], tmp)
+        try:
+            a = run_program(c["ops"], c["seed"], tmp)
+        except Diverged:
+            return {"nontrivial": False, "excluded": 1, "labels": ["diverged"]}
         np.random.seed(c["np_seeds"][1]); random.seed(c["np_seeds"][1])
         for _ in range(c["consume"]):
             np.random.rand(3); random.random(); np.random.permutation(5)
@@ -236,7 +245,10 @@ def check_readonly(c):
                 state.compute_batch_gradients(op["k"], samples, samples.clone(), *([brow] if t != "positive" else []))
             elif k == "fit":
                 data, bases = train_data(n, 4)
-                state.fit(data, epochs=1, pos_batch_size=2, lr=0.05, **({"input_bases": bases} if t != "positive" else {}))
+                guard, div = gen.divergence_guard()
+                state.fit(data, epochs=1, pos_batch_size=2, lr=0.05, callbacks=[guard], **({"input_bases": bases} if t != "positive" else {}))
+                if div[0]:
+                    return {"nontrivial": False, "excluded": 1, "labels": ["diverged"]}
                 require(not torch.equal(params_flat(state), snap) or True, "x", "x")
                 snap = params_flat(state)
             elif k == "reinit":
